@@ -56,6 +56,14 @@ def run(chk):
             chk.broken.append({"kind": "correspondence", "what": "extract_context / sparse-node decision differs from model/Context.v", "examples": bad[:5]})
 
 
+    # static certificate: the dimension of a qualifying index is read only to initialise a variable
+    # that is never read, hence iteration counts are independent of it for ALL inputs
+    # (CERT_dim_irrelevant, CERT_dim_irrelevant_runs)
+    from props._certs import cert_props, run_certs
+    cert_props(chk)
+    run_certs(chk, ["dim_unread"])
+
+
 def replay(chk, payload):
     print(json.dumps(payload, indent=1)[:4000])
     return 0
